@@ -86,6 +86,12 @@ pub enum PendingSpec {
     NoBmp,
     /// A pre-authorisation of an earlier session is still open: reported with its receipt number.
     Dangling,
+    /// The same, with this receipt number (0000 and 9999 are legal BCD receipt numbers).
+    DanglingAt(u16),
+    /// The same, and the answer also carries the TLV list of ZVT 2.10.1 (tag 23 with 08 entries)
+    /// naming the reported receipt and a further one. The client is only held to "the one it
+    /// reports" in BMP 87; the listed-only one is not a dangling pre-authorisation for the oracles.
+    DanglingWithList,
 }
 
 #[derive(Clone, Debug, PartialEq, Eq, Serialize, Deserialize)]
@@ -973,6 +979,7 @@ impl PtConn {
                     let (p, n) = pt.q.pending.pop_front().unwrap_or((PendingSpec::NoneFfff, 0));
                     pre(&mut out, n);
                     let still_open = pt.ledger.values().find(|l| l.dangling && l.state == EntryState::Open).map(|l| l.receipt);
+                    let mut listed: Option<(u16, u16)> = None;
                     let extra = match p {
                         _ if still_open.is_some() => {
                             // reported before (or booked for a reply that never got through) and never reversed
@@ -982,8 +989,12 @@ impl PtConn {
                         }
                         PendingSpec::NoneFfff => rc::AbortExtra::NoneMarker,
                         PendingSpec::NoBmp => rc::AbortExtra::None,
-                        PendingSpec::Dangling => {
-                            let r = pt.issue_receipt();
+                        PendingSpec::Dangling | PendingSpec::DanglingAt(_) | PendingSpec::DanglingWithList => {
+                            let r = match p {
+                                // (unless the ledger already knows that number: an earlier or current transaction)
+                                PendingSpec::DanglingAt(r) if !pt.ledger.contains_key(&r) => r,
+                                _ => pt.issue_receipt(),
+                            };
                             let by_request = req;
                             pt.ledger.insert(
                                 r,
@@ -998,10 +1009,41 @@ impl PtConn {
                                 },
                             );
                             pt.requests[req].dangling_reported = Some(r);
+                            if p == PendingSpec::DanglingWithList {
+                                let r2 = pt.issue_receipt();
+                                pt.ledger.insert(
+                                    r2,
+                                    LedgerEntry {
+                                        receipt: r2,
+                                        amount: 1200,
+                                        currency: 978,
+                                        token: b"listed-only".to_vec(),
+                                        state: EntryState::Open,
+                                        by_request,
+                                        dangling: false,
+                                    },
+                                );
+                                listed = Some((r, r2));
+                            }
                             rc::AbortExtra::Receipt(r)
                         }
                     };
-                    out.push(plain(rc::abort(0xb8, extra)));
+                    if let Some((r, r2)) = listed {
+                        let mut body = vec![0xb8, 0x87];
+                        body.extend(rc::bcd(r as u64, 2));
+                        let mut list = vec![0x08, 0x02];
+                        list.extend(rc::bcd(r as u64, 2));
+                        list.extend([0x08, 0x02]);
+                        list.extend(rc::bcd(r2 as u64, 2));
+                        let mut t = vec![0x23, list.len() as u8];
+                        t.extend(list);
+                        body.push(0x06);
+                        body.push(t.len() as u8);
+                        body.extend(t);
+                        out.push(plain(rc::apdu((0x06, 0x1e), &body)));
+                    } else {
+                        out.push(plain(rc::abort(0xb8, extra)));
+                    }
                     completes = true;
                 } else {
                     let receipt = pkt.get_bcd(0x87).unwrap_or(0) as u16;
